@@ -177,14 +177,31 @@ def proj_c10(op, r):
     return strip_kv(strip_kv(r, "pp"), "sd")        # the parts round trip of each state belongs to C17, its serde form to C19
 
 
-def proj_c20(op, r):
+# ops whose answer is a Locale / ExtensionsMap parse: WHICH error is returned for an ill-formed locale is not something any property speaks
+# about (C03: "err, variant ignored"); the comparison with the model ignores it for every property (harmless rewrite H07 changes it)
+LOCALE_PARSE_OPS = {"loc", "locstr", "loccan", "ext", "conv", "idem", "locparts", "pair", "extpair"}
+
+
+def proj_c20_full(op, r):
     return strip_kv(r, "sd") if op == "hist" else r   # `sd` exists only with the serde feature (an extra API)
+
+
+def proj_c20(op, r):
+    """against the model; the builds are compared with each other on the full answer (`orc_c20`, `proj_c20_full`)"""
+    r = proj_c20_full(op, r)
+    if op in LOCALE_PARSE_OPS:
+        return " || ".join(" | ".join(err_class(h) for h in part.split(" | ")) for part in r.split(" || "))
+    return r
+
+
+def proj_c07(op, r):
+    return err_class(r) if op in LOCALE_PARSE_OPS else r
 
 
 def proj_c17(op, r):
     if op == "hist":
         return " # ".join((get_kv(p, "pp") or "-") for p in r.split(" # "))
-    return r
+    return err_class(r) if op in LOCALE_PARSE_OPS else r
 
 
 def proj_c15(op, r):
@@ -840,7 +857,7 @@ def orc_c20(ctx, op, req, impl, model, spec):
     key = hash(req)
     if ctx.get("requery"):
         return None
-    impl = proj_c20(op, impl)
+    impl = proj_c20_full(op, impl)
     if ctx.get("first_config"):
         base[key] = hash(impl)
         return None
@@ -942,7 +959,7 @@ PROPS = {
                 + [("hist", None)],
                 {"li", "loc", "ext", "idem", "hist", "lang", "script", "region", "variant"}, proj_rt, orc_c05, design_ref="4/C05"),
     "C06": Prop("C06", [("abb", "max,limax")] + S(["triples"], "max,limax"), {"max", "limax"}, proj_full, orc_spec_equal, design_ref="4/C06"),
-    "C07": Prop("C07", [("abb", "max,limax,locmax")] + S(["triples"], "max,limax,loc,locmax"), {"max", "limax", "loc", "locmax"}, proj_full, orc_c07,
+    "C07": Prop("C07", [("abb", "max,limax,locmax")] + S(["triples"], "max,limax,loc,locmax"), {"max", "limax", "loc", "locmax"}, proj_c07, orc_c07,
                 design_ref="4/C07"),
     "C08": Prop("C08", [("abb", "min,limin,liminmax,locmin")] + S(["triples"], "min,limin,liminmax,locmin"), {"min", "limin", "liminmax", "locmin"}, proj_full, orc_c08,
                 design_ref="4/C08"),
